@@ -296,6 +296,9 @@ def g_case(w, v, out, pre=(), post=()):
 # damaged documents (C07)
 
 SUFFIX_ALPHABET = asc("]}[{\",:0atfn\\-e./x") + [0, 0x80]
+# every control unit that is NOT JSON whitespace (tab, LF, CR, space), DEL, and the Unicode spaces
+# that a too-generous whitespace test could let through
+CONTROL_SUFFIXES = [c for c in range(1, 32) if c not in (9, 10, 13)] + [0x7F, 0x85, 0xA0, 0x2028, 0x3000, 0xFEFF]
 
 
 def damaged_cases(rng, w, out, full=True):
@@ -306,7 +309,7 @@ def damaged_cases(rng, w, out, full=True):
     cuts = range(len(d)) if full else sorted(set(rng.randrange(len(d)) for _ in range(12)))
     for k in cuts:
         res.append(("prefix", d[:k]))
-    for c in SUFFIX_ALPHABET:
+    for c in SUFFIX_ALPHABET + (CONTROL_SUFFIXES if full else rng.sample(CONTROL_SUFFIXES, 6)):
         if c <= CU_MAX[w]:
             res.append(("suffix", d + [c]))
             res.append(("suffix", d + [rng.choice(WS), c]))
@@ -490,7 +493,19 @@ def run_check(prop, tier, gen, theorems_file, what, level_rule, extra=None):
     boost = 1 if proof_ok else 4
     cases, dist = gen(rng, tier, boost)
     cases = corpus_cases(prop) + cases
-    res = vlib.differential("json", exe, cases)
+    # pre-screen: a tree that already fails on the corpus and the first few hundred generated cases
+    # is reported from those (a crashing build would otherwise be re-run case by case for minutes)
+    head = cases[: len(corpus_cases(prop)) + 600]
+    res = vlib.differential("json", exe, head)
+    if not (res.oracle_fail or res.crashes):
+        rest = vlib.differential("json", exe, cases[len(head):])
+        res.oracle_fail += rest.oracle_fail
+        res.mismatch += rest.mismatch
+        res.bad += rest.bad
+        res.crashes += rest.crashes
+        res.n += rest.n
+    else:
+        cases = head
     if not res.oracle_fail and (res.mismatch or res.bad) and boost == 1:
         more, dist2 = gen(random.Random(rep.seed + 104729), tier, 4)
         r2 = vlib.differential("json", exe, more)
